@@ -810,6 +810,7 @@ func c20(c *core.Ctx, r *core.Report) {
 		}
 	}
 	c20Utilities(c, r)
+	c20LoggerPure(c, r)
 	// R5b: the singleton registry is built on the concurrent set, the registries on sync2.Map
 	concSet := c.Func("util/list", "NewConcurrentSets")
 	for _, T := range c.Implementors(c.Iface("container", "SingletonComponentRegistry")) {
@@ -837,4 +838,129 @@ func c20(c *core.Ctx, r *core.Report) {
 		}
 		r.Check(okF && usesConc, "C20.R5", "registry-state:"+T.Obj().Name(), c.Pos(T.Obj().Pos()), "the singleton cache has no plain map field and its in-creation set is the concurrent variant")
 	}
+}
+
+// c20LoggerPure (R7): loggers are shared by every goroutine of the parallel phases (syslog.Pref hands out one cached
+// object per prefix), so the print path must not write logger state: in every method of a Logger implementation
+// except the two that build a new logger (Level, Pref), and in the in-package functions they call, no store goes
+// through the receiver, another parameter, a captured variable or a package variable unless a lock is held.
+func c20LoggerPure(c *core.Ctx, r *core.Report) {
+	li := c.Iface("syslog", "Logger")
+	if li == nil {
+		r.Undecided("C20.R7", "role:Logger", "", "syslog.Logger not found")
+		return
+	}
+	root := func(v ssa.Value) ssa.Value {
+		for i := 0; i < 16 && v != nil; i++ {
+			switch x := v.(type) {
+			case *ssa.FieldAddr:
+				v = x.X
+			case *ssa.IndexAddr:
+				v = x.X
+			case *ssa.UnOp:
+				v = x.X
+			case *ssa.Slice:
+				v = x.X
+			case *ssa.ChangeType:
+				v = x.X
+			case *ssa.Phi:
+				if len(x.Edges) == 0 {
+					return v
+				}
+				v = x.Edges[0]
+			default:
+				return v
+			}
+		}
+		return v
+	}
+	nFns, nStores := 0, 0
+	for _, T := range c.Implementors(li) {
+		seen := map[*ssa.Function]bool{}
+		var work []*ssa.Function
+		for i := 0; i < li.NumMethods(); i++ {
+			name := li.Method(i).Name()
+			if name == "Level" || name == "Pref" {
+				continue
+			}
+			if m := c.DeclaredMethod(T, name); m != nil && !seen[m] {
+				seen[m] = true
+				work = append(work, m)
+			}
+		}
+		for len(work) > 0 {
+			fn := work[0]
+			work = work[1:]
+			nFns++
+			for _, f := range core.WithAnon(fn) {
+				for _, b := range f.Blocks {
+					for _, in := range b.Instrs {
+						var addr ssa.Value
+						switch x := in.(type) {
+						case *ssa.Store:
+							addr = x.Addr
+						case *ssa.MapUpdate:
+							addr = x.Map
+						case ssa.CallInstruction:
+							if cal := x.Common().StaticCallee(); cal != nil && c.InScope(cal) && core.PkgOf(cal) == core.PkgOf(fn) && !seen[cal] {
+								seen[cal] = true
+								work = append(work, cal)
+							}
+							continue
+						default:
+							continue
+						}
+						rt := root(addr)
+						shared := false
+						switch rt.(type) {
+						case *ssa.Parameter, *ssa.Global, *ssa.FreeVar:
+							shared = true
+						}
+						if !shared {
+							continue
+						}
+						nStores++
+						r.Check(simpleLockHeld(c, in), "C20.R7", fmt.Sprintf("logger-write@%s", core.FnName(f)), c.Pos(in.Pos()),
+							"the print path of a logger writes shared logger state only under a lock (loggers are shared by all goroutines of the parallel phases)")
+					}
+				}
+			}
+		}
+	}
+	r.Floor("C20.R7", "functions on the print path of Logger implementations", nFns, 10)
+	if nStores == 0 {
+		r.Hold("C20.R7", "logger-print-path", "", fmt.Sprintf("no store through the receiver, a parameter, a captured or a package variable in the %d functions of the print path", nFns))
+	}
+}
+
+// simpleLockHeld: a Lock on a mutex that is not a local variable dominates in and its Unlock is deferred or comes after in.
+func simpleLockHeld(c *core.Ctx, in ssa.Instruction) bool {
+	fn := in.Parent()
+	for _, ci := range core.Calls(fn) {
+		if !(core.IsExtCall(ci.Common(), "(*sync.Mutex).Lock") || core.IsExtCall(ci.Common(), "(*sync.RWMutex).Lock")) {
+			continue
+		}
+		if _, isCall := ci.(*ssa.Call); !isCall || !core.Dominates(ci, in) {
+			continue
+		}
+		mu := ci.Common().Args[0]
+		if _, local := core.Norm(mu).(*ssa.Alloc); local {
+			continue
+		}
+		for _, cu := range core.Calls(fn) {
+			if !(core.IsExtCall(cu.Common(), "(*sync.Mutex).Unlock") || core.IsExtCall(cu.Common(), "(*sync.RWMutex).Unlock")) {
+				continue
+			}
+			if !core.Equiv(cu.Common().Args[0], mu) && core.Norm(cu.Common().Args[0]) != core.Norm(mu) {
+				continue
+			}
+			if _, isDefer := cu.(*ssa.Defer); isDefer && core.Dominates(cu, in) {
+				return true
+			}
+			if _, isCall := cu.(*ssa.Call); isCall && c.InstrPostDominates(cu, in) && !core.Dominates(cu, in) {
+				return true
+			}
+		}
+	}
+	return false
 }
